@@ -82,7 +82,7 @@ W = [
  ("fs:part-copy-range-unchecked", [mb(), put("a", 1, 10), mpc("b"), mpcp("b", "u1", 1, "a", "bytes=0-20")],
   "upload_part_copy does not validate x-amz-copy-source-range against the source (range beyond the end, open-ended range accepted)"),
  ("fs:list-prefix-as-path", [mb(), put("d/e", 1, 10), ls2(p="/d")],
-  "list_objects(_v2) treats the prefix as a path ('/d', 'd//e' match keys they are not prefixes of)"),
+  "list_objects(_v2) drops leading slashes of the prefix ('/d' matches keys it is not a prefix of; the integration test test_list_objects_v2 of s3s-fs demands it). Since fe72881 the prefix is otherwise a plain string prefix ('d//e', 'd/./' no longer match 'd/e')"),
  ("fs:delete-missing-key-error", [mb(), dele("a")],
   "delete_object of a key that does not exist answers NoSuchKey; S3 answers success"),
  ("fs:metadata-survives-delete", [mb(), put("a", 1, 10, {"m": "v1"}), dele("a"), put("a", 2, 10), get("a")],
@@ -134,6 +134,7 @@ FIXED = {
  "fs:stale-checksum-after-copy": "8faafe7", "fs:stale-metadata-after-copy": "8faafe7",
  "fs:delete-objects-duplicate-key": "c55c267", "fs:delete-objects-omits-missing-keys": "c55c267",
  "fs:list-parts-unordered": "764f144",
+ "fs:list-delimiter-not-rolled-up": "fe72881", "fs:list-delimiter-rewrites-keys": "fe72881", "fs:list-ignores-max-keys": "fe72881",
 }
 # repairs whose text says explicitly that it describes the code before the repair
 BEFORE = {"fs:head-missing-key-code", "fs:delete-missing-key-error", "fs:missing-bucket-reported-as-missing-key",
@@ -143,7 +144,8 @@ BEFORE = {"fs:head-missing-key-code", "fs:delete-missing-key-error", "fs:missing
           "fs:stale-checksum-after-complete", "fs:stale-metadata-after-complete",
           "fs:stale-checksum-after-copy", "fs:stale-metadata-after-copy",
           "fs:delete-objects-duplicate-key", "fs:delete-objects-omits-missing-keys",
-          "fs:list-parts-unordered"}
+          "fs:list-parts-unordered",
+          "fs:list-delimiter-not-rolled-up", "fs:list-delimiter-rewrites-keys", "fs:list-ignores-max-keys"}
 
 lines, findings = [], []
 for i, (cls, ops, what) in enumerate(W, 1):
